@@ -68,6 +68,25 @@ Fixpoint process_lines (ls : list (list Z)) : list Z :=
   | l :: rest => process_line l ++ process_lines rest
   end.
 
+(* the submitted lines that reach the file: all of them, in order, except an empty last one. There is no bound on
+   their number or on their length anywhere between bbs.CreateArticle and WriteFile (ptttype.MAX_EDIT_LINE is a
+   limit of the terminal editor, which is not on this path): Proofs/C09.v shows process_lines = flat_map
+   process_line . kept_lines for every list of lines. *)
+Fixpoint kept_lines (ls : list (list Z)) : list (list Z) :=
+  match ls with
+  | [] => []
+  | [l] => match l with [] => [] | _ => [l] end
+  | l :: rest => l :: kept_lines rest
+  end.
+Fixpoint ends_empty (ls : list (list Z)) : bool :=      (* the last submitted line exists and is empty *)
+  match ls with
+  | [] => false
+  | [l] => match l with [] => true | _ => false end
+  | _ :: rest => ends_empty rest
+  end.
+(* number of line feeds in a byte string = number of text lines it holds *)
+Definition count_nl (s : list Z) : nat := count_occ Z.eq_dec s 10.
+
 (* copy(dst, src) *)
 Definition copy_into (dst src : list Z) : list Z :=
   firstn (length dst) src ++ skipn (length src) dst.
@@ -319,10 +338,18 @@ Definition fetch (b : board) (aid : list Z) : res (option (list Z)) :=
 
 (* ------------------------------------------------------------------ wire *)
 (* blob = n b1 .. bn *)
+(* the first n elements and the rest, None when there are fewer; one pass over the n elements only (bodies of
+   thousands of lines are decoded blob by blob: measuring the whole remaining input for each would be quadratic) *)
+Fixpoint take_z (l : list Z) (n : Z) : option (list Z * list Z) :=
+  if n <=? 0 then Some ([], l)
+  else match l with
+       | [] => None
+       | x :: r => match take_z r (n - 1) with Some (a, rest) => Some (x :: a, rest) | None => None end
+       end.
 Definition take_blob (l : list Z) : option (list Z * list Z) :=
   match l with
   | [] => None
-  | n :: r => if (0 <=? n) && (n <=? lenZ r) then Some (firstn (Z.to_nat n) r, skipn (Z.to_nat n) r) else None
+  | n :: r => if 0 <=? n then take_z r n else None
   end.
 Fixpoint take_blobs (k : nat) (l : list Z) : option (list (list Z)) :=
   match k with
